@@ -309,7 +309,7 @@ def extra_jobs(ctx):
 
 
 # --------------------------------------------------------------------------- judge
-TRACE_KEYS = ("tid", "U", "op", "snd", "rcv", "sstore", "srefs", "r0", "rtips0", "r1", "rtips1", "runk", "idbad",
+TRACE_KEYS = ("tid", "U", "op", "snd", "rcv", "sstore", "srefs", "r0", "rtips0", "r1", "rtips1", "runk", "idbad", "gitok",
               "wants", "mwants", "forged", "inctag", "ok", "cap", "sent", "sunk", "thin", "hk", "haves", "mode", "srv", "cli",
               "rheads", "miv")
 
@@ -510,12 +510,6 @@ def run(ctx):
         if r["ok"] and r["cap"] and len(r["sent"]) > 3:
             ctx.sample({"case": case_key(j), "op": j["op"], "transport": j["transport"], "caps": caps_key(j),
                         "sent": ["%s%d" % tuple(o) for o in r["sent"]], "verdict": verdicts[r["tid"]][:2]})
-    fs = sum(1 for r in recs if r["info"].get("fsck_ok") == 0 and r["ok"])
-    if fs:
-        bad = next(r for r in recs if r["info"].get("fsck_ok") == 0 and r["ok"])
-        if verdicts[bad["tid"]][0] == "ok":
-            raise MachineryError(f"git fsck --connectivity-only rejects a receiver the specification calls complete: "
-                                 f"{case_key(jobs[bad['tid']])} {bad['info'].get('fsck')}")
     ctx.assumptions += [
         "objects are identified by SHA-1 of their bytes (hashlib); zlib and the pack/delta encoding of the captured packs "
         "are decoded by the harness' own parser (harness/c05_lib.py), cross-checked by git on a sample",
